@@ -117,20 +117,21 @@ def configs(tier, book):
     """name -> constants of the exhaustive models (quick: depth 2; thorough: depth 3 and more initial heaps)."""
     thorough = tier == 'thorough'
     edit_heaps = [{1: E1, 2: A1}, {1: A1, 2: B1}, {1: A1, 2: W1}, {1: W1, 2: A1}, {1: B1, 2: E1}, {1: W1, 2: E1}, {1: A1, 2: A1},
-                  {1: B1, 2: W1}]
-    sys_heaps = [{1: P1, 2: Q1, 3: E1}, {1: P1, 2: Q1, 3: C1}, {1: W1, 2: C1, 3: E1}]
+                  {1: A1, 2: X2}]
+    sys_heaps = [{1: P1, 2: Q1, 3: E1}, {1: P1, 2: X2, 3: C1}, {1: W1, 2: C1, 3: E1}]
+    sys_lists = '{<<1,2>>, <<2,1>>, <<1,2,3>>, <<3,1>>}'
     blk_heaps = [{1: E2, 2: A2, 3: BL}, {1: W2, 2: E2, 3: BM}]
-    if thorough:
-        edit_heaps += [{1: C1, 2: A1}, {1: A1, 2: C1}, {1: E1, 2: E1}, {1: A1, 2: X2}, {1: G1, 2: B1}]
-        sys_heaps += [{1: P1, 2: X2, 3: Q1}, {1: Q1, 2: P1, 3: G1}]
-        blk_heaps += [{1: A2, 2: W2, 3: BL}]
+    if thorough:        # one step deeper from fewer, more varied initial heaps (the dot graphs hold every state as text)
+        edit_heaps = [{1: E1, 2: A1}, {1: A1, 2: W1}, {1: W1, 2: C1}, {1: C1, 2: X2}, {1: G1, 2: B1}]
+        sys_heaps = [{1: P1, 2: Q1, 3: C1}, {1: W1, 2: X2, 3: E1}]
+        sys_lists = '{<<1,2>>, <<2,1,3>>, <<3,1>>}'
     depth = '3' if thorough else '2'
     out = {}
     out['edit'] = dict(COMMON, Id='{1,2}', Types='{"bonds"}', Key='{0,1,2,3}', InitHeaps=_heaps(*edit_heaps),
                        AtomSeqs='{<<0,1>>,<<1,2>>,<<1,0>>}', NodeSets='{{1},{3},{2,3},{0,1}}', MaxNodes='5', MaxInter='3',
                        Acts=_acts(EDIT_ACTS), MaxDepth=depth)
-    out['system'] = dict(COMMON, Id='{1,2,3}', Types='{"bonds"}', Key='{0,5}' if not thorough else '{0,2,5}',
-                         InitHeaps=_heaps(*sys_heaps), InitSys='{<<1,2>>, <<2,1>>, <<1,2,3>>, <<3,1>>}',
+    out['system'] = dict(COMMON, Id='{1,2,3}', Types='{"bonds"}', Key='{0,5}',
+                         InitHeaps=_heaps(*sys_heaps), InitSys=sys_lists,
                          ChainSets='{{"p"},{"q"},{"p","q"}}', AtomSeqs='{<<0,1>>}', NodeSets='{{2,3},{5}}', MaxNodes='6',
                          MaxInter='4', Acts=_acts(SYS_ACTS), MaxDepth=depth)
     out['block'] = dict(COMMON, Id='{1,2,3}', BlockIds='{3}', Types='{"bonds","impropers"}', Key='{0,5}', BKey='{"a","d"}',
@@ -597,6 +598,7 @@ def absorb_replay(jobs, outs, info, ev, vd):
     acts = collections.defaultdict(collections.Counter)
     nb = ns = 0
     sim_acts = collections.Counter()
+    broken = set()          # configurations with a mismatch: the subtree below a mismatch is not replayed
     for job, out in zip(jobs, outs):
         if job[0] == 'replay':
             cfg = job[1]
@@ -605,6 +607,7 @@ def absorb_replay(jobs, outs, info, ev, vd):
             acts[cfg].update(a)
             for b in bad:
                 vd.violation('replay-mismatch', b, b['diff'])
+                broken.add(cfg)
             note_book(ev, obs_ok, differs, samples)
         elif job[0] == 'behaviours':
             n, steps, bad, hashes, a, obs_ok, differs, samples = out
@@ -617,9 +620,9 @@ def absorb_replay(jobs, outs, info, ev, vd):
             note_book(ev, obs_ok, differs, samples)
     for cfg in info['cfgs']:
         missing = set(ACTS[cfg]) - set(acts[cfg])
-        if missing:
+        if missing and cfg not in broken:
             raise tlc.MachineryError('vacuous model %s: actions never replayed: %s' % (cfg, sorted(missing)))
-        if total[cfg] != info['expect'][cfg]:
+        if total[cfg] != info['expect'][cfg] and cfg not in broken:
             raise tlc.MachineryError('%s: replayed %d of %d transitions' % (cfg, total[cfg], info['expect'][cfg]))
         ev.extra.setdefault('replayed_transitions_by_action', {})[cfg] = dict(acts[cfg])
     n = sum(total.values())
@@ -629,7 +632,7 @@ def absorb_replay(jobs, outs, info, ev, vd):
     if info['with_sim']:
         ev.tlc_runs.append({'run': 'SIM MoleculeEdit edit / system / block, depth 10-12', 'behaviours': nb, 'steps': ns, 'by_action': dict(sim_acts)})
         need = set(EDIT_ACTS + SYS_ACTS + BLK_ACTS)
-        if need - set(sim_acts):
+        if need - set(sim_acts) and not vd.violations:
             raise tlc.MachineryError('simulation never took: %s' % sorted(need - set(sim_acts)))
         if info['first']:
             beh = tlaval.parse_simulate_file(info['first'])
@@ -1083,6 +1086,9 @@ def run(tier, seed, ev, vd):
     ]
     ev.extra['bookkeeping_as_found'] = {k: v.strip('"') for k, v in book.items()}
     ev.extra['bookkeeping_demanded'] = {k: v.strip('"') for k, v in DEMANDED.items()}
+    phases = set(os.environ.get('C12_PHASES', 'mc,sim,random,real').split(','))      # debugging aid (mutation testing): a subset
+    if phases != {'mc', 'sim', 'random', 'real'}:
+        return run_some(phases, tier, seed, book, ev, vd)
     # 1. every TLC run on the specification alone (3 exhaustive + 3 simulations), side by side
     rjobs, info = tlc_phase(tier, seed, book, ev)
     # 2. one pool for everything that touches the real code: replay of the graphs and behaviours, and the workers that record
@@ -1096,9 +1102,30 @@ def run(tier, seed, ev, vd):
     k1, k2 = len(real_jobs), len(real_jobs) + len(rnd_jobs)
     absorb_replay(jobs[k2:], outs[k2:], info, ev, vd)
     by_event = absorb(outs[k1:k2], ev, vd, rnd_label)
-    if RANDOM_NEED - set(by_event):
+    if RANDOM_NEED - set(by_event) and not vd.violations:      # (a rejected history ends at the rejected event)
         raise tlc.MachineryError('random histories: no accepted event of kind %s' % sorted(RANDOM_NEED - set(by_event)))
     c12_more.finish(tier, [x for o in outs[:k1] for x in o], real_label, ev, vd)
+
+
+def run_some(phases, tier, seed, book, ev, vd):
+    from . import c12_more
+    print('C12: only the phases %s (C12_PHASES)' % sorted(phases))
+    if 'mc' in phases:
+        rjobs, info = tlc_phase(tier, seed, book, ev, with_sim='sim' in phases)
+        with mp.Pool(tlc.NCPU) as pool:
+            outs = pool.map(_dispatch, rjobs, chunksize=1)
+        absorb_replay(rjobs, outs, info, ev, vd)
+    if 'random' in phases:
+        jobs, label = random_jobs(tier, seed, book)
+        with mp.Pool(tlc.NCPU) as pool:
+            by_event = absorb(pool.map(_dispatch, jobs, chunksize=1), ev, vd, label)
+        if RANDOM_NEED - set(by_event) and not vd.violations:
+            raise tlc.MachineryError('random histories: no accepted event of kind %s' % sorted(RANDOM_NEED - set(by_event)))
+    if 'real' in phases:
+        jobs, label = c12_more.jobs(tier, seed, book)
+        with mp.Pool(min(tlc.NCPU, len(jobs))) as pool:
+            outs = pool.map(_dispatch, jobs, chunksize=1)
+        c12_more.finish(tier, [x for o in outs for x in o], label, ev, vd)
 
 
 def replay(scenario):
